@@ -3,10 +3,12 @@
 use crate::fw::{Cfg, Phase};
 
 pub mod c03;
+pub mod c10;
 
 pub fn build(cfg: &Cfg) -> (Vec<Box<dyn Phase>>, Result<String, String>) {
     match cfg.property.as_str() {
         "C03" => (c03::phases(cfg), c03::selfcheck()),
+        "C10" => (c10::phases(cfg), c10::selfcheck()),
         other => (Vec::new(), Err(format!("unknown property {}", other))),
     }
 }
